@@ -6,27 +6,11 @@
    close, so it is in one of three states — token present, token taken (the
    taker is running the constructor), closed (the value is cached).  A loader
    that lost the LoadOrStore race is never invoked and plays no role. *)
-From Verif Require Import Base.GoPrim Base.Skel.
+From Verif Require Import Base.GoPrim Base.Skel Model.ExpectedSkel.
 From Coq Require Import String.
 
 (* the skeletons the transition systems below were written for (astgen's output
    at the pinned commit); Props/C17.v checks Gen.ConcSkel against them *)
-Open Scope string_scope.
-Definition expected_ops_NewOnceConstructor : list sk := [SReturn].
-Definition expected_ops_OnceConstructor_Get : list sk :=
-  [SPrim (POp "call" "@.loaders.Load"); SPrim (POp "if" "inited");
-   SIf [SPrim (POp "call" "loaderVal.(func() (v V))"); SReturn] [];
-   SPrim (POp "make-chan" "1"); SPrim (POp "send" "done");
-   SPrim (POp "func-begin" ""); SPrim (POp "recv" "done"); SPrim (POp "if" "ok");
-   SIf [SPrim (POp "call" "@.new"); SPrim (POp "close" "done")] []; SReturn; SPrim (POp "func-end" "");
-   SPrim (POp "call" "@.loaders.LoadOrStore"); SPrim (POp "call" "loaderVal.(func() (v V))"); SReturn].
-Definition expected_ops_NewChanSemaphore : list sk := [SPrim (POp "make-chan" "maxRes"); SReturn].
-Definition expected_ops_ChanSemaphore_Acquire : list sk :=
-  [SPrim (POp "select" "send @.c | recv ctx.Done()");
-   SIf [SReturn] [SIf [SPrim (POp "call" "ctx.Done"); SPrim (POp "call" "ctx.Err"); SReturn] []]].
-Definition expected_ops_ChanSemaphore_Release : list sk :=
-  [SPrim (POp "select" "recv @.c | default"); SIf [] [SIf [] []]].
-Close Scope string_scope.
 
 (* ================= OnceConstructor ================= *)
 
